@@ -1454,11 +1454,12 @@ def opt_K_at(rng: np.random.Generator, K: int, order: int, backend, cross: bool,
             "fsfac": 2.0, "steps": list(steps), "expect_K": int(K)}
 
 
-def opt_plan_at(rng: np.random.Generator, N: int, Jdes: int, order: int, backend, cross: bool, sched: str, steps: List[str], nref: int) -> Dict[str, Any]:
+def opt_plan_at(rng: np.random.Generator, N: int, Jdes: int, order: int, backend, cross: bool, sched: str, steps: List[str], nref: int,
+                wins=("kaiser", "hann", "default")) -> Dict[str, Any]:
     fs = float(rng.choice([1.0, 2.0, 1000.0]))
-    wn = str(rng.choice(["kaiser", "hann", "default"]))
+    wn = str(rng.choice(list(wins)))
     return {"kind": "opt", "i": -1, "dseed": int(rng.integers(0, 2 ** 31)), "fs": fs, "cross": bool(cross), "order": int(order), "backend": backend,
-            "entry": str(rng.choice(["analyzer", "compute_spectrum"])), "win": wn, "psll": float(rng.choice([200.0, 100.0])) if wn == "kaiser" else None,
+            "entry": str(rng.choice(["analyzer", "compute_spectrum"])), "win": wn, "psll": float(rng.choice([200.0, 100.0, 60.0] if "default" in wins else [100.0, 60.0])) if wn == "kaiser" else None,
             "layout": "Nx2" if cross else "1d", "rec": [str(rng.choice(["drift", "offset", "red"])), "tone"], "f0": 0.1 * fs,
             "Jdes": int(Jdes), "Kdes": int(rng.choice([2, 5, 10])), "bmin": 1.0, "Lmin": 1, "sched": sched, "N": int(N),
             "olap": str(rng.choice(["omit", "default"])) if rng.random() < 0.5 else 0.5, "olap_form": "plan", "pair": [8.0, 0.25], "fsfac": 2.0,
@@ -1482,7 +1483,8 @@ def size_cases(rng: np.random.Generator, s: int, big: bool):
     #     of 70 001 samples
     sch = _an.SCHEDS[s % 4]
     yield "always", opt_plan_at(rng, int(rng.integers(12_000, 20_000)) if big else int(rng.integers(5_000, 8_000)), 2003 + 500 * (s % 3), o4[(s + 3) % 4],
-                                ["numba", "numpy"][(s // 2) % 2], bool(s % 2), sch, ["ref"] if not big else ["ref", "other", "scale", "repeat"], 6)
+                                ["numba", "numpy"][(s // 2) % 2], bool(s % 2), sch, ["ref"] if not big else ["ref", "other", "scale", "repeat"], 6,
+                                wins=("hann", "kaiser", "ramp", "blackman"))     # (windows whose sums are not proportional to L to 1e-10)
     sch3 = ["ltf", "lpsd", "vectorized_ltf"]                 # (new_ltf answers long records with tens of thousands of bins)
     yield "always", opt_plan_at(rng, 70_001, 24 if big else 12, o4[s % 4], ["numpy", "numba"][s % 2], bool((s // 2) % 2), sch3[(s + 1) % 3],
                                 ["ref", "other"] if not big else ["ref", "other", "scale"], 5)
@@ -1649,7 +1651,7 @@ def _oracle(ctx, intensive: bool = False, hints=()) -> C.Part:
             P.notes.append(f"slow case ({time.time() - t1:.1f} s): {_opt_brief(c)}")
     spent = {"opt": time.time() - t0}
     # ---- size thresholds: the sizes of every run first, then probes around the constants of the current source, then more large sizes
-    t0, cap = time.time(), (150.0 if ctx.thorough else 9.0) * mult
+    t0, cap = time.time(), (150.0 if ctx.thorough else 7.5) * mult
     n_size = 0
     for cls, c in size_cases(np.random.default_rng(int(ctx.rng.integers(0, 2 ** 62))), seed, big):
         if full(P):
